@@ -13,6 +13,7 @@ import SwimVerif.Model.ReconEqProto
 import SwimVerif.Proofs.ReconStruct
 import SwimVerif.Proofs.ReconEqFinal
 import SwimVerif.Proofs.ReconEqBlind
+import SwimVerif.Proofs.ReconEqMixC
 
 namespace SwimVerif.ReconEq
 open SwimVerif.Recon
@@ -324,13 +325,100 @@ theorem C15_compare_not_transitive :
     compareRecon "{{1,2},{3}}".toList "{{{1,2},3}}".toList = true ∧
     compareRecon "{1,{2},{3}}".toList "{{{1,2},3}}".toList = false := by decide +kernel
 
+/-! ## no false splits across layouts (implicit / explicit attribute bodies MIXED between the two sides) -/
+
+/-- **No false splits between any two layouts** — the step `C15_cmp_complete_layouts` left open.  For ALL values and any
+two choices `ch1`, `ch2` of which attribute bodies are written without braces (independent on the two sides:
+`@a(1,2)` against `@a({1,2})`, nested to any depth), the event streams of equal values compare `Some(true)`.  The proof
+follows `incremental_compare` iteration by iteration (`Proofs/ReconEqMix{A,B,C}.lean`): where one side has the body
+braces and the other has not, the loop skips the `StartBody` — possibly only after matching it against the opening
+braces of the body's first items (the two streams are then one `StartBody` out of step, `QV`/`QIs`; when the innermost
+of these records is empty the same iteration skips `StartBody, EndRecord` on one side and `EndRecord` on the other) —
+and the `EndRecord` in front of the `EndAttribute`; in between the two validators differ by an empty attribute builder
+with a `NoKey` builder above it, which `<ValueValidator as PartialEq>::eq` absorbs (`SR`, `stacksEq_SRb`). -/
+theorem C15_cmp_complete_mixed_layouts (ch1 ch2 : List Char → Bool) (v w : Value) (h : veq v w = true) :
+    incrementalCompare (stream (evsG ch1 v, .fin)) (stream (evsG ch2 w, .fin)) = some true :=
+  mixed_layouts ch1 ch2 v w h
+
+example :
+    let v : Value := .record (.cons "a".toList (.record .nil (.val (.record .nil (.val (.record .nil .nil) .nil))
+        (.val (.int .i32 2) .nil))) .nil) .nil
+    evsG (fun _ => false) v ≠ evsG (fun _ => true) v ∧
+    incrementalCompare (stream (evsG (fun _ => false) v, .fin)) (stream (evsG (fun _ => true) v, .fin)) = some true := by
+  decide +kernel
+
+/-- The comparator sees the two event streams only up to `ReadEvent::eq`: replacing either stream by one that agrees
+with it event by event (another spelling of the same tokens) never changes the verdict — all streams, all validators. -/
+theorem C15_cmp_respects_spelling (fuel : Nat) (V1 V2 : VV) (a a' b b' : List Event) (ha : evsAgree a a' = true)
+    (hb : evsAgree b b' = true) :
+    cmpLoop fuel V1 V2 (a.map .ev) (b.map .ev) = cmpLoop fuel V1 V2 (a'.map .ev) (b'.map .ev) :=
+  cmpLoop_congr fuel V1 V2 a a' b b' ha hb
+
+/-- **No false splits on hand-written texts, layout by layout.**  `inLayout ch a` (decidable): `a` is valid Recon and
+its event stream is, up to the spelling of the tokens, the stream of its value with the attribute bodies `ch` selects
+written without braces.  White space, `,` / `;` / new lines as separators, radix, leading zeros, quoting and escapes
+never reach the events, so the fragment contains far more than printer output.  Two such texts — in DIFFERENT layouts
+`ch1`, `ch2` — with equal values compare equal under `compare_recon_values` (as modelled). -/
+theorem C15_cmp_complete_layout_texts (ch1 ch2 : List Char → Bool) (a b : List Char) (va vb : Value)
+    (pa : parseValue a = some va) (pb : parseValue b = some vb) (la : inLayout ch1 a = true) (lb : inLayout ch2 b = true)
+    (h : veq va vb = true) : compareRecon a b = true := by
+  unfold inLayout at la lb
+  rw [pa] at la
+  rw [pb] at lb
+  simp only [Bool.and_eq_true, beq_iff_eq] at la lb
+  exact compareRecon_of_streams a b _ _ la.1 lb.1 la.2 lb.2 (mixed_layouts ch1 ch2 va vb h)
+
+/-- Non-vacuity: neither text is what a printer writes for this value (they write `@a({1},2)`): `;` and a new line as
+separators, the body explicit on one side and implicit on the other, and its first item is itself a record (the
+out-of-step case). -/
+example :
+    inLayout (fun _ => false) "@a({{1};2})".toList = true ∧ inLayout (fun _ => true) "@a({1}\n2)".toList = true ∧
+    parseValue "@a({{1};2})".toList = parseValue "@a({1}\n2)".toList ∧
+    (parseValue "@a({1}\n2)".toList).isSome = true ∧
+    compareRecon "@a({{1};2})".toList "@a({1}\n2)".toList = true := by
+  decide +kernel
+
+/-- **One side printer output, the other any text in any layout**: a well-formed value printed by any of the three
+printers compares equal to every valid text of an equal value whose stream is a layout of it. -/
+theorem C15_cmp_complete_printed_vs_layout (st : Style) (v : Value) (hw : v.wf = true) (ch : List Char → Bool)
+    (b : List Char) (vb : Value) (pb : parseValue b = some vb) (lb : inLayout ch b = true) (h : veq v vb = true) :
+    compareRecon (print st v) b = true := by
+  unfold inLayout at lb
+  rw [pb] at lb
+  simp only [Bool.and_eq_true, beq_iff_eq] at lb
+  have e := events_print st v hw
+  have f1 : (events (print st v)).2 = .fin := by rw [e]
+  have a1 : evsAgree (events (print st v)).1 (evsG (fun _ => true) v) = true := by
+    rw [e]; exact evsAgree_refl _
+  exact compareRecon_of_streams _ b _ _ f1 lb.1 a1 lb.2 (mixed_layouts (fun _ => true) ch v vb h)
+
+/-- Non-vacuity: a hand-written text (explicit body, `;`, blanks, a new line before the record body) in the fragment;
+the printers write `@a(1,2)` for its value. -/
+example :
+    inLayout (fun _ => false) "@a({1 ; 2})\n{ }".toList = true ∧
+    parseValue "@a({1 ; 2})\n{ }".toList = parseValue "@a(1,2)".toList ∧
+    (parseValue "@a(1,2)".toList).isSome = true := by decide +kernel
+
+/-- The open statement below with the exact extra hypothesis under which it is proved: each text's event stream is a
+layout of its value (some choice of brace-less attribute bodies, not necessarily the same for the two texts). -/
+theorem C15_cmp_complete_partial :
+    ∀ a b : List Char, ∀ va vb : Value, parseValue a = some va → parseValue b = some vb → veq va vb = true →
+      (∃ ch, inLayout ch a = true) → (∃ ch, inLayout ch b = true) → compareRecon a b = true := by
+  intro a b va vb pa pb h ⟨ch1, la⟩ ⟨ch2, lb⟩
+  exact C15_cmp_complete_layout_texts ch1 ch2 a b va vb pa pb la lb h
+
+example : (∃ ch, inLayout ch "@a({1 ; 2})\n{ }".toList = true) ∧ (∃ ch, inLayout ch "@a(1\n2)".toList = true) :=
+  ⟨⟨fun _ => false, by decide +kernel⟩, ⟨fun _ => true, by decide +kernel⟩⟩
+
 /-! ## open (tied by differential testing only) -/
 
 /-- No false splits on ALL valid texts: texts of equal values compare equal, whatever their layout (implicit / explicit
 attribute bodies MIXED between the two sides, white space, separators, spellings).  Proved for printer output
-(`C15_cmp_complete_on_printed`) and for equal layouts (`C15_cmp_complete_layouts`); for arbitrary hand-written texts it
-needs the automaton on all of the grammar (not only on printed texts).  Neither the random engines nor the exhaustive
-small scope found a counterexample. -/
+(`C15_cmp_complete_on_printed`), for any two layouts of the event streams (`C15_cmp_complete_mixed_layouts`) and for all
+texts whose stream is a layout of their value (`C15_cmp_complete_layout_texts`, `…_printed_vs_layout`).  What is missing
+for ALL texts is only the parser side: that the automaton's stream for every valid text IS a layout of the value
+`ValueMaterializer` builds from it (with the choice made per attribute occurrence, not per name).  Neither the random
+engines nor the exhaustive small scope found a counterexample. -/
 def C15_cmp_complete_open : Prop :=
   ∀ a b : List Char, ∀ va vb : Value, parseValue a = some va → parseValue b = some vb → veq va vb = true →
     compareRecon a b = true
